@@ -59,6 +59,8 @@ def import_repo():
     for m in list(sys.modules):
         if m == "pymemcache" or m.startswith("pymemcache."):
             del sys.modules[m]
+    import logging
+    logging.disable(logging.CRITICAL)     # the library logs expected failures (with tracebacks) to stderr
     import pymemcache  # noqa
 
     got = os.path.dirname(os.path.dirname(os.path.abspath(pymemcache.__file__)))
